@@ -262,7 +262,7 @@ def main(prop, tier, replay, njobs):
             if len(samples) < 12:
                 samples.append("%s: %s" % (j.name, s))
         outcomes |= r["outcomes"]
-        notes += r["notes"][:5]
+        notes += r["notes"][:8]
         for v in r["viols"]:
             viols.append((v[0], v[1], v[2], j))
         if r["done"] is None:
@@ -270,7 +270,7 @@ def main(prop, tier, replay, njobs):
         elif not r["done"]:
             exhaustive = False
     for g in spec.get("guards", []):
-        msg = g(stats, outcomes)
+        msg = g(stats, outcomes, notes) if getattr(g, "wants_notes", False) else g(stats, outcomes)
         if msg:
             infra.append("vacuity guard: " + msg)
 
